@@ -20,7 +20,7 @@ def run(ck):
     ck.trusted += ["harness/c03.py; hand model QV/Model/C03.lean (signature generator, element rules) validated on generated inputs",
                    "the numerical value of eps0 in internal units is taken from the code (quantarhei.core.units.eps0_int) and cross-checked "
                    "against scipy.constants within 1e-6"]
-    ck.prove(PROPS, extra_modules=["QV.Drive.C03"])
+    ck.prove(PROPS, extra_modules=["QV.Drive.C03"], also=["QV.Props.C03Enum"])
     lines, impl, tol = [], [], []
     combos = [(n, mu) for n in range(1, ck.n(6, 7) + 1) for mu in (1, 2)]
     nrep = ck.n(2, 6)
